@@ -510,7 +510,7 @@ def zr_factory(sc):
     def goal(w):
         return all(len(w.ep["s"].rx.get(s, b"")) == sc["n"] for s in (0, 4))
     return cfg, script, [ZeroRttMonitor(l1, l2)], {"max_steps": 300, "horizon": 60.0,
-                                                  "deviations": ("drop", "delay", "dup")}, goal
+                                                  "deviations": ("drop", "delay", "dup", "hold")}, goal
 
 
 netcheck.register("c06zr", zr_factory)
